@@ -78,6 +78,7 @@ def peel_desc(draw):
             "atom_last": draw(st.booleans()),
             "xf_atom": draw(st.sampled_from(XF)),
             "xf_rest": draw(st.sampled_from(XF)),
+            "split": draw(st.integers(0, 2)) == 0,
         },
     ]
 
@@ -229,9 +230,9 @@ def reverse_template(draw, tier="quick"):
         "inferral": [],
         "expansion": [
             [["Expand", {"order": draw(st.integers(0, 3)), "skip_prefixes": [x], "xf_atom": xf, "xf_rest": "id"}]],
-            [["Peel", {"atom_last": draw(st.booleans()), "xf_atom": xf, "xf_rest": "id"}]],
+            [["Peel", {"atom_last": draw(st.booleans()), "xf_atom": xf, "xf_rest": "id", "split": draw(st.booleans())}]],
         ],
-        "ver": [["WordAtom", {}], ["BruteVer", {"minlen": 2}]],
+        "ver": [["WordAtom", {}], ["BruteVer", {"minlen": draw(st.sampled_from([2, 2, 3]))}]],
         "symmetries": [],
         "iterative": False,
     }
